@@ -8,6 +8,7 @@ on the real engine; the same list (as `ev` terms) is replayed by the model insid
 and the canonical views after every event are compared token by token.
 """
 import collections
+import os
 import copy
 import random
 
@@ -710,16 +711,16 @@ PROFILES = {
     'dup': {'dup': 0.12},
 }
 
-CORPUS_DIR = core.os.path.join(core.VERIF, 'corpus', 'engine')
+CORPUS_DIR = os.path.join(core.VERIF, 'corpus', 'engine')
 
 
 def load_corpus():
     import glob
     import json
     out = []
-    for f in sorted(glob.glob(core.os.path.join(CORPUS_DIR, '*.json'))):
+    for f in sorted(glob.glob(os.path.join(CORPUS_DIR, '*.json'))):
         c = json.load(open(f))
-        c['file'] = core.os.path.basename(f)
+        c['file'] = os.path.basename(f)
         out.append(c)
     return out
 
@@ -758,7 +759,7 @@ def trace_suite(ctx, props, profiles, n_quick, n_thorough, suite='engine_trace',
     replay in the model, compare views, and report the implementation-side oracle failures
     that concern `props`."""
     n = ctx.n(n_quick, n_thorough)
-    rng = core.random.Random('%s/%s/%d' % (suite, ctx.seed, seed_base))
+    rng = random.Random('%s/%s/%d' % (suite, ctx.seed, seed_base))
     jobs = []
     for i in range(n):
         prof = profiles[i % len(profiles)]
@@ -772,7 +773,7 @@ def trace_suite(ctx, props, profiles, n_quick, n_thorough, suite='engine_trace',
     usable = [t for t in traces if not (t.unsupported or '').startswith('rejected')]
     models = model_traces(usable, name=suite)
     compare(ctx, suite, usable, models)
-    dist = core.collections.Counter()
+    dist = collections.Counter()
     nontrivial = 0
     for t in usable:
         for l in t.labels:
@@ -790,7 +791,7 @@ def trace_suite(ctx, props, profiles, n_quick, n_thorough, suite='engine_trace',
     st['events'] = sum(len(t.labels) for t in usable)
     st['programs_with_cycles'] = sum(1 for t in usable if t.prog.has_cycle())
     st['programs_with_joins'] = sum(1 for t in usable if any(x.get('join') is not None for x in t.prog.tasks))
-    st['quiescent_final'] = dict(core.collections.Counter(t.views[-1][0] for t in usable if t.views and getattr(t, 'quiescent', False)))
+    st['quiescent_final'] = dict(collections.Counter(t.views[-1][0] for t in usable if t.views and getattr(t, 'quiescent', False)))
     if usable:
         t = usable[-1]
         ctx.sample({'suite': suite, 'yaml': t.prog.yaml(t.style), 'events': t.labels[:40], 'final_view': t.views[-1] if t.views else None})
